@@ -6,7 +6,7 @@ namespace IrVerif.Writer
 
 /-- the progress callback of this tensor has been called -/
 def pastCb : Pc → Bool
-  | .notStarted | .cbAcq | .cbBody => false
+  | .notStarted | .tAcq | .cbAcq | .cbBody => false
   | _ => true
 
 def called (s : State) (k : Nat) : Prop := ∃ p, s.tasks[k]? = some p ∧ pastCb p = true
@@ -49,7 +49,7 @@ theorem called_finish {cfg : Cfg} {s : State} (hs : SInv cfg s) {i : Nat} {p : P
     have hl1 := getElem?_lt hnext
     by_cases e1 : i + 1 = k
     · subst e1
-      have h1 : ((s.tasks.set i (.done true)).set (i + 1) .cbAcq)[i + 1]? = some .cbAcq := by
+      have h1 : ((s.tasks.set i (.done true)).set (i + 1) .tAcq)[i + 1]? = some .tAcq := by
         simp [hl1]
       constructor
       · rintro ⟨q, hq, hc⟩; rw [h1] at hq; cases hq; simp [pastCb] at hc
@@ -58,7 +58,7 @@ theorem called_finish {cfg : Cfg} {s : State} (hs : SInv cfg s) {i : Nat} {p : P
         · rw [hnext] at hq; cases hq; simp [pastCb] at hc
     · by_cases e2 : i = k
       · subst e2
-        have h1 : ((s.tasks.set i (.done true)).set (i + 1) .cbAcq)[i]? = some (.done true) := by
+        have h1 : ((s.tasks.set i (.done true)).set (i + 1) .tAcq)[i]? = some (.done true) := by
           simp [List.getElem?_set, hlt]
         exact ⟨fun _ => Or.inl rfl, fun _ => ⟨_, h1, rfl⟩⟩
       · have e3 : ¬ k = i := fun e => e2 e.symm
@@ -105,8 +105,8 @@ theorem GInv_step {cfg : Cfg} (wf : WF cfg) {s s' : State} {l : Label} (hs : SIn
       · simp only [finishTask_log]
         exact List.nodup_append.2 ⟨h.nodup, by simp, by
           intro a ha b hb; simp at hb; subst hb; intro e; subst e; exact hni ha⟩
-      · rw [called_finish (s := { s with log := s.log ++ [i], cbLock := false })
-          (SInv_congr hs rfl rfl rfl rfl rfl) false hi rfl k]
+      · rw [called_finish (s := { s with log := s.log ++ [i], cbLock := false, tLocks := s.tLocks.set (cfg.obj i) false })
+          (SInv_congr hs rfl rfl (by simp) rfl rfl) false hi rfl k]
         simp only [finishTask_log, List.mem_append, List.mem_cons, List.not_mem_nil, or_false]
         rw [h.mem k]
         constructor
